@@ -1,5 +1,8 @@
 """C18 - console appender and ANSI writer: Console.tla's decision table (432 environment rows) and SGR encoding
 (243 styles) enumerated by TLC; each row replayed in a child process on ptys / pipes, each style on AnsiWriter."""
+import json
+import os
+
 from driver import common as C
 
 PID = "C18"
@@ -16,6 +19,33 @@ def run(tier, replay=None):
         else:
             key.update({"style_len": len(inp["sgr"])})
         run.mismatch(key, m)
+    # growth beyond the decision table: several threads and two appenders on one stream (ConsoleStream.tla) - the
+    # design with and without the stream lock by TLC, then the bytes real child processes put on pipes and terminals
+    # as a trace against it
+    cs = C.run_tlc("MC_ConsoleStream", "MC_ConsoleStream.cfg", "c18_cs", workers=4, timeout=900, coverage=False)
+    if cs.inv_violated:
+        run.mismatch({"kind": "model", "invariant": cs.inv_violated}, {"tlc": cs.error_text[:4000]})
+    run.add_tlc(cs)
+    neg = C.run_tlc("MC_ConsoleStream", "MC_ConsoleStream_unlocked.cfg", "c18_cs_neg", workers=2, timeout=300, coverage=False)
+    if neg.inv_violated != "Whole":
+        raise C.ToolError("negative control: ConsoleStream.tla without the lock does not violate Whole")
+    tp = os.path.join(C.workdir("c18_stream"), "stream_%s.ndjson" % tier)
+    rounds = 2 if tier == "quick" else 12
+    p = C.run_harness(["constream", tp, "4", "30", str(rounds)], timeout=900)
+    info = json.loads(p.stdout.strip().splitlines()[-1])
+    for f in info["failures"]:
+        run.mismatch({"kind": "stream: " + f["what"], "target": f["target"], "tty": f["tty"]}, f)
+    if not info["failures"]:
+        tr = C.validate_trace(run, "Trace_ConsoleStream", "Trace_ConsoleStream.cfg", "c18_stream", tp, timeout=900,
+                              key={"kind": "stream trace rejected"}, linear=False)
+        if tr is not None:
+            run.states += tr.distinct
+            run.transitions += tr.generated
+        run.traces += info["runs"]
+    if info["coloured_runs"] == 0 or info["runs"] != rounds * 4:
+        raise C.ToolError("console stream runs: %s" % info)
+    run.extra = {"stream_model_states": cs.distinct, "stream_child_runs": info["runs"], "stream_events": info["events"],
+                 "stream_coloured_runs": info["coloured_runs"]}
     rows = [c for c in cases if c["kind"] == "row"]
     run.evaluations = len(cases)
     run.nontrivial = sum(1 for c in rows if c["row"]["tty_only"] or c["coloured"]) + sum(1 for c in cases if c["kind"] == "style")
